@@ -219,10 +219,10 @@ static bool has_mate_in_one(Position& p)
 // definitions of MateOracle.tla (CanMate / Doomed) and is used ONLY for announcements beyond the depth the specification's oracle
 // explores in TLC; on every announcement within that depth the monitor cross-checks its verdict against the specification's.
 // return: 1 yes, 0 no, -1 node budget exhausted
-static std::unordered_map<uint64_t, signed char> g_memo;
+std::unordered_map<uint64_t, signed char> g_memo;
 static inline uint64_t memo_key(const Position& p, int n, int role) { return p.hash() * 0x9E3779B97F4A7C15ULL + uint64_t(n) * 2 + uint64_t(role); }
-static int solver_doomed(Position& p, int n, long& budget);
-static int solver_can_mate(Position& p, int n, long& budget)
+int solver_doomed(Position& p, int n, long& budget);
+int solver_can_mate(Position& p, int n, long& budget)
 {
     if (n < 1) return 0;
     uint64_t k = memo_key(p, n, 0);
@@ -247,7 +247,7 @@ static int solver_can_mate(Position& p, int n, long& budget)
     g_memo[k] = (signed char)res;
     return res;
 }
-static int solver_doomed(Position& p, int n, long& budget)
+int solver_doomed(Position& p, int n, long& budget)
 {
     MoveVec mv;
     mv.gen(p);
@@ -576,13 +576,34 @@ struct OutBuf : std::streambuf
     std::condition_variable cv;
     std::string acc;
     std::vector<std::string> lines;
+    // one-shot: the thread that completes the next `bestmove` line is held INSIDE the write (the GUI has the line, the thread
+    // has not yet run anything that follows its output statement) until release_best()
+    bool park_on_best = false, best_parked = false, best_released = false;
+    std::condition_variable pcv;
     int overflow(int c) override
     {
-        std::lock_guard<std::mutex> l(m);
-        if (c == '\n') { lines.push_back(acc); acc.clear(); cv.notify_all(); }
+        std::unique_lock<std::mutex> l(m);
+        if (c == '\n')
+        {
+            bool hold = park_on_best && acc.rfind("bestmove", 0) == 0;
+            lines.push_back(acc);
+            acc.clear();
+            cv.notify_all();
+            if (hold)
+            {
+                park_on_best = false;
+                best_parked = true;
+                pcv.notify_all();
+                pcv.wait(l, [&] { return best_released; });
+                best_parked = false;
+            }
+        }
         else acc.push_back((char)c);
         return c;
     }
+    void arm_best() { std::lock_guard<std::mutex> l(m); park_on_best = true; best_parked = false; best_released = false; }
+    bool wait_best_parked(int ms) { std::unique_lock<std::mutex> l(m); return pcv.wait_for(l, std::chrono::milliseconds(ms), [&] { return best_parked; }); }
+    void release_best() { { std::lock_guard<std::mutex> l(m); best_released = true; park_on_best = false; } pcv.notify_all(); }
     std::streamsize xsputn(const char* s, std::streamsize n) override
     {
         for (std::streamsize i = 0; i < n; ++i) overflow((unsigned char)s[i]);
@@ -674,6 +695,52 @@ int cmd_schedules(const Args& a)
         in.push("isready");
         out.wait_line("readyok", 5000);
         out.clear();
+        if (pid == "stale_thread")
+        {
+            // A first search ends by itself; its thread is held right after its bestmove line is out (the GUI has the move).
+            // The GUI answers at once with the next go; only then the first thread runs on to its end; then stop.
+            // The stop belongs to the SECOND search and must be answered, whatever the leftover of the first thread does.
+            out.arm_best();
+            in.push("go " + cmds);                                   // field 5: the limits of the first search (ends by itself)
+            bool first_parked = out.wait_best_parked(wait_ms);
+            long starts0;
+            { std::lock_guard<std::mutex> l(sm); starts0 = seenB["thread_start"]; }
+            out.clear();
+            in.push("go " + go);                                     // field 2: the second search (infinite)
+            bool second_started;
+            { std::unique_lock<std::mutex> l(sm); second_started = scv.wait_for(l, std::chrono::milliseconds(3000), [&] { return seenB["thread_start"] > starts0; }); }
+            out.release_best();
+            std::this_thread::sleep_for(std::chrono::milliseconds(pn > 0 ? pn : 100));   // the first thread runs to its end
+            in.push("isready");
+            bool ready = out.wait_line("readyok", 3000);
+            in.push("stop");
+            bool stop_delivered;
+            { std::unique_lock<std::mutex> l(sm); stop_delivered = scv.wait_for(l, std::chrono::milliseconds(3000), [] { return stop_seen; }); }
+            std::string bm;
+            bool got = out.wait_line("bestmove", wait_ms, &bm);
+            bool lost = !got;
+            if (!got)
+            {
+                // bring the search down by calling the searcher's stop() directly, then go on
+                if (uci.search) uci.search->stop();
+                out.wait_line("bestmove", 30000, &bm);
+            }
+            std::this_thread::sleep_for(std::chrono::milliseconds(20));
+            long vas, vis;
+            { std::lock_guard<std::mutex> l(sm); vas = visits_after_stopB; vis = visitsB; }
+            fprintf(o, "{\"e\":\"go\",\"fen\":%s,\"from\":%s,\"moves\":[],\"limits\":{\"go\":%s,\"searchmoves\":[],\"tt\":\"fresh\",\"stop_id\":%s,\"stop_n\":%ld,\"tag\":%s}}\n",
+                    jstr(fen).c_str(), jstr(fen).c_str(), jstr(go).c_str(), jstr(pid).c_str(), pn, jstr(tag).c_str());
+            long nb = 0, ni = 0;
+            emit_output(o, lost ? std::string() : out.text(), &nb, &ni);
+            fprintf(o, "{\"e\":\"end\",\"mode\":\"threads\",\"bestcount\":%ld,\"infos\":%ld,\"parked\":%s,\"stop_sent\":true,\"stop_delivered\":%s,\"ready_while_parked\":%s,"
+                       "\"visits\":%ld,\"visits_after_stop\":%ld,\"lost_stop\":%s,\"forced\":false,\"flag_atomic\":%s,\"two_threads\":true,"
+                       "\"max_depth_index\":0,\"max_ply\":0,\"search_depth\":0,\"iters_after_stop\":0,\"limits_fired\":0,\"ms\":0}\n",
+                    nb, ni, jbool(first_parked && second_started).c_str(), jbool(stop_delivered || lost).c_str(), jbool(ready).c_str(), vis, lost ? -1 : vas,
+                    jbool(lost).c_str(), jbool(flag_atomic).c_str());
+            fflush(o);
+            n++;
+            continue;
+        }
         in.push("go " + go);
         bool got_park;
         { std::unique_lock<std::mutex> l(sm); got_park = scv.wait_for(l, std::chrono::milliseconds(wait_ms), [] { return parked; }); }
